@@ -200,7 +200,10 @@ def expand_ops(op, py):
     ms = [m for m in enumerate_mutations(doc) if not excluded(m, doc)]
     rng = random.Random(op[2])
     if len(ms) > op[3]:
+        # a random sample, plus the few mutations that name an unknown primitive (always kept)
+        keep = [m for m in ms if m[0].startswith("unknown type")]
         ms = rng.sample(ms, op[3])
+        ms += [m for m in keep if m not in ms]
     out = []
     for i, m in enumerate(ms):
         d = apply_mutation(doc, m)
